@@ -109,6 +109,34 @@ var ValidFamilies = []Family{
 		}
 		return b.String()
 	}},
+	// a fragment cycle whose members all select the same composite field with a sub selection that spreads a fragment
+	{"frag-cycle-overlap-sub", false, func(n int) string {
+		var b strings.Builder
+		b.WriteString("query Q { pet { ...H } ...F0 } ")
+		for i := 0; i < n; i++ {
+			b.WriteString("fragment F" + itoa2(i) + " on Query { pet { ...H } ...F" + itoa2((i+1)%n) + " } ")
+		}
+		b.WriteString("fragment H on Pet { id }")
+		return b.String()
+	}},
+	{"frag-cycle-overlap-sub-nested", false, func(n int) string {
+		var b strings.Builder
+		b.WriteString("query Q { person { friend { ...H } ...F0 } } ")
+		for i := 0; i < n; i++ {
+			b.WriteString("fragment F" + itoa2(i) + " on Person { friend { ...H friend { ...F" + itoa2((i+2)%n) + " } } ...F" + itoa2((i+1)%n) + " } ")
+		}
+		b.WriteString("fragment H on Person { id ...F0 }")
+		return b.String()
+	}},
+	{"frag-chain-overlap-sub", false, func(n int) string {
+		var b strings.Builder
+		b.WriteString("query Q { pet { ...H } ...F0 } ")
+		for i := 0; i < n; i++ {
+			b.WriteString("fragment F" + itoa2(i) + " on Query { pet { ...H ...H" + itoa2(i) + " } ...F" + itoa2(i+1) + " } fragment H" + itoa2(i) + " on Pet { id } ")
+		}
+		b.WriteString("fragment F" + itoa2(n) + " on Query { id } fragment H on Pet { id }")
+		return b.String()
+	}},
 	{"frag-chain", false, func(n int) string {
 		var b strings.Builder
 		b.WriteString("query Q { ...F0 } ")
